@@ -403,6 +403,47 @@ class SCRG_subgraph_1(LoopInv):
         return [ctx.v_entry.ac_ref(x), vE.ac_ref(x)] if self.t is H.D_ACHG else [ctx.v_entry.bc_ref(x), vE.bc_ref(x)]
 
 
+class CRG_reverse_0(LoopInv):
+    """for bond in self.bonds:
+           r = self._bond_attrs[bond].get("reaction", None)
+           if r == Change.FORMED: rev_reac.set_bond_attribute(*bond, "reaction", Change.BROKEN)
+           elif r == Change.BROKEN: rev_reac.set_bond_attribute(*bond, "reaction", Change.FORMED)"""
+    modifies_dict_dom = ("attr",)
+    modifies_dict_val = ("attr",)
+
+    def inv(self, ctx, done):
+        from .derive_ops import _swap_label
+
+        e = ctx.fr.env["rev_reac"]
+        v0, E = ctx.v_entry, ctx.h_entry
+        N = H.heap_of(ctx.interp).snapshot()
+        vE = GM.View(E, e)
+        b = z3.Const("lb", BondS)
+        x = z3.Int("lx")
+        r_ = z3.Int("lr")
+        k = z3.Const("lkk", H.KeyS)
+        row = lambda hh, r: (z3.Select(hh.dom["attr"], r), z3.Select(hh.val["attr"], r))  # noqa
+        rb = vE.bref(b)
+        dE, vEr = row(E, rb)
+        dN, vNr = row(N, rb)
+        lab0 = v0.battr_val(b, H.K_REACTION)
+        swapped = z3.And(z3.Select(done, b), v0.battr_has(b, H.K_REACTION), _swap_label(lab0) != lab0)
+        same_row = lambda r: z3.And(z3.Select(N.dom["attr"], r) == z3.Select(E.dom["attr"], r), z3.Select(N.val["attr"], r) == z3.Select(E.val["attr"], r))  # noqa
+        return [
+            ("visited-are-bonds", FA([b], z3.Implies(z3.Select(done, b), z3.Select(ctx.C, b)), patterns=[z3.Select(done, b)])),
+            ("labels-of-visited-formed-and-broken-bonds-swapped-rest-of-the-attributes-kept",
+             FA([b, k], z3.Implies(vE.bond(b), z3.And(z3.Select(dN, k) == z3.Select(dE, k),
+                                                      z3.Select(vNr, k) == z3.If(z3.And(swapped, k == H.K_REACTION), _swap_label(lab0), z3.Select(vEr, k)))))),
+            ("atom-attribute-dicts-of-the-copy-untouched", FA([x], z3.Implies(vE.atom(x), same_row(vE.aref(x))))),
+            ("objects-of-the-source-untouched", FA([r_], z3.Implies(r_ < E.A0, same_row(r_)))),
+        ]
+
+    def hints(self, ctx, x):
+        e = ctx.fr.env["rev_reac"]
+        vE = GM.View(ctx.h_entry, e)
+        return [ctx.v_entry.bref(x), vE.bref(x)]
+
+
 def _role_loop(label):
     class _L(LoopInv):
         __doc__ = f"""for bond in self.bonds: a1, a2 = bond; if self.get_bond_attribute(a1, a2, "reaction") == Change.{label}: acc.add(bond)"""
@@ -426,6 +467,7 @@ def _role_loop(label):
 
 
 LOOPS = {
+    ("graphs/crg.py", "CondensedReactionGraph.reverse_reaction", 0): CRG_reverse_0,
     ("graphs/smg.py", "StereoMolGraph.relabel_atoms", 0): SMG_relabel_0,
     ("graphs/smg.py", "StereoMolGraph.relabel_atoms", 1): SMG_relabel_1,
     ("graphs/scrg.py", "StereoCondensedReactionGraph.subgraph", 1): SCRG_subgraph_1,
